@@ -270,6 +270,9 @@ struct Enc {
     imm: i64,
     rep: u8,
     mode64: bool,
+    /// 64-bit mode with an address-size prefix: effective addresses and the implicit count / string
+    /// registers are 32 bits wide
+    addr32: bool,
 }
 
 fn assemble(rng: &mut Rng, form: &Form, mode64: bool) -> Option<Enc> {
@@ -282,6 +285,13 @@ fn assemble(rng: &mut Rng, form: &Form, mode64: bool) -> Option<Enc> {
     if has_modrm && rng.chance(1, 10) {
         seg = *rng.pick(&[0x64u8, 0x65]);
         bytes.push(seg);
+    }
+    let counted = matches!(form.name, "loop" | "loope" | "loopne" | "jrcxz");
+    // 64-bit mode: 32-bit addressing; 32-bit mode: only the count register of loop/jcxz becomes 16 bits wide
+    // (16-bit ModRM addressing is not generated)
+    let addr32 = if mode64 { (has_modrm || form.sp == S::Str || counted) && !matches!(form.sp, S::Stack | S::Leave) && rng.chance(1, 10) } else { counted && rng.chance(1, 5) };
+    if addr32 {
+        bytes.push(0x67);
     }
     if form.sp == S::Str && rng.chance(1, 2) {
         rep = if matches!(form.name, "cmpsb" | "scasb" | "scas") { *rng.pick(&[0xf3u8, 0xf2]) } else { 0xf3 };
@@ -499,7 +509,7 @@ fn assemble(rng: &mut Rng, form: &Form, mode64: bool) -> Option<Enc> {
     if let Some(m) = mem.as_mut() {
         m.disp_off += tail_start;
     }
-    Some(Enc { bytes, form: *form, opsize, mem, reg, rm_reg, imm, rep, mode64 })
+    Some(Enc { bytes, form: *form, opsize, mem, reg, rm_reg, imm, rep, mode64, addr32 })
 }
 
 fn flag(rf: u64, bit: u32) -> bool {
@@ -659,6 +669,24 @@ fn model32(e: &Enc, st0: &X86State) -> Option<StepResult> {
             st.gpr[4] = m32(esp.wrapping_add(4).wrapping_add(extra));
             st.rip = t as u64;
         }
+        "jrcxz" | "loop" | "loope" | "loopne" if e.addr32 => {
+            // address-size prefix in 32-bit mode: the count register is cx
+            let zf = st.rflags >> 6 & 1 == 1;
+            let taken = if e.form.name == "jrcxz" {
+                st.gpr[1] & 0xffff == 0
+            } else {
+                let cx = (st.gpr[1] as u16).wrapping_sub(1);
+                st.gpr[1] = (st.gpr[1] & 0xffff_0000) | cx as u64;
+                cx != 0 && match e.form.name {
+                    "loope" => zf,
+                    "loopne" => !zf,
+                    _ => true,
+                }
+            };
+            if taken {
+                st.rip = m32(next.wrapping_add(e.imm as u64));
+            }
+        }
         "leave" => {
             let ebp = m32(st.gpr[5]);
             let v = rd(&st, ebp)?;
@@ -777,6 +805,36 @@ impl C01 {
                 }
             }
         }
+        if e.addr32 && !e.mode64 {
+            st.gpr[1] = (st.gpr[1] & 0xffff) | (rng.corner64(16) << 16);
+            if rng.bool() {
+                st.gpr[1] &= 0xffff_0003;
+            }
+        }
+        if e.addr32 && e.mode64 {
+            // only the low 32 bits of address, string and count registers take part: the rest is noise
+            let mut noisy: Vec<usize> = Vec::new();
+            if let Some(m) = &e.mem {
+                noisy.extend(m.base.iter().chain(m.index.iter()).cloned());
+            }
+            if e.form.sp == S::Str {
+                noisy.extend([6usize, 7]);
+                if e.rep != 0 {
+                    noisy.push(1);
+                }
+            }
+            if matches!(e.form.name, "loop" | "loope" | "loopne" | "jrcxz") {
+                noisy.push(1);
+                if rng.bool() {
+                    st.gpr[1] = rng.below(3);
+                }
+            }
+            for r in noisy {
+                if r != 4 && rng.chance(2, 3) {
+                    st.gpr[r] = (st.gpr[r] & 0xffff_ffff) | (rng.corner64(32) << 32);
+                }
+            }
+        }
         // the stack pointer may have been used as base: keep it canonical
         Some(st)
     }
@@ -796,7 +854,7 @@ impl C01 {
         let mut native_bytes = e.bytes.clone();
         let mut modelled: Option<StepResult> = Option::None;
         if !mode64 {
-            if matches!(e.form.sp, S::Stack | S::Leave) || matches!(e.form.name, "jmp_rm" | "call_rm") {
+            if matches!(e.form.sp, S::Stack | S::Leave) || matches!(e.form.name, "jmp_rm" | "call_rm") || e.addr32 {
                 // no 64-bit encoding behaves like these with 4-byte stack slots: judged against the hand model
                 match model32(&e, &st0) {
                     Some(m) => {
@@ -916,6 +974,9 @@ impl C01 {
         if e.mem.as_ref().map(|m| m.seg != 0).unwrap_or(false) {
             tags.push_str(":seg");
         }
+        if e.addr32 {
+            tags.push_str(":a32");
+        }
         let names_sp = e.rm_reg == Some(4) || (e.form.kind == OpReg && e.reg == 4) || e.mem.as_ref().map(|m| m.base == Some(4) || m.index == Some(4)).unwrap_or(false);
         if matches!(e.form.sp, S::Stack | S::Leave) && names_sp {
             tags.push_str(":sp_operand");
@@ -924,6 +985,10 @@ impl C01 {
             tags.push_str(":same_reg");
         }
         let sig_base = format!("{}:{}:{}{}", mode, e.form.name, e.opsize, tags);
+        // one coarse signature per instruction for the constellation "address-size prefix on an instruction with
+        // implicit address/count registers" (string instructions, loop, jecxz)
+        let implicit_a32 = e.addr32 && (e.form.sp == S::Str || matches!(e.form.name, "loop" | "loope" | "loopne" | "jrcxz"));
+        let finalize = |sig: String| -> String { if implicit_a32 { format!("{}:{}:a32_implicit_registers", mode, e.form.name) } else { sig } };
         let st1 = match res {
             StepResult::Ok(s) => s,
             StepResult::Signal(sig) => {
@@ -953,7 +1018,7 @@ impl C01 {
                     LiftEnd::Fault(fl) => fl.kind().to_string(),
                     o => format!("{:?}", o).to_lowercase(),
                 };
-                ctx.violation(&format!("{}:il_{}", sig_base, kind), json!({"input": state_json(&e, &st0), "il_end": format!("{:?}", other)}));
+                ctx.violation(&finalize(format!("{}:il_{}", sig_base, kind)), json!({"input": state_json(&e, &st0), "il_end": format!("{:?}", other)}));
                 return;
             }
         };
@@ -1023,7 +1088,7 @@ impl C01 {
         diffs.sort();
         diffs.dedup();
         if !diffs.is_empty() {
-            ctx.violation(&format!("{}:diff={}", sig_base, diffs.join("+")), json!({"input": state_json(&e, &st0), "differences": detail}));
+            ctx.violation(&finalize(format!("{}:diff={}", sig_base, diffs.join("+"))), json!({"input": state_json(&e, &st0), "differences": detail}));
             return;
         }
         let changed = st1.gpr != st0.gpr || st1.xmm != st0.xmm || st1.arena != st0.arena || (st1.rflags ^ st0.rflags) & 0xcc1 != 0 || st1.rip != CODE_ADDR + native_bytes.len() as u64;
